@@ -195,6 +195,10 @@ def handle (req : Json) : Except String Json := do
       let doc ← decJ (req.getObjValD "doc")
       let d ← decDiff (req.getObjValD "diff")
       pure (reply (patch doc d) encJ)
+  | "wf" => do
+      let doc ← decJ (req.getObjValD "doc")
+      let d ← decDiff (req.getObjValD "diff")
+      pure (Json.mkObj [("ok", .bool (wf doc d))])
   | "splitlines" => do
       let doc ← decJ (req.getObjValD "doc")
       match doc with
